@@ -363,7 +363,7 @@ pub fn case_json(case: &Case) -> Value {
 pub fn cmd(args: &Args) -> Report {
     let mut rep = Report::new("C17");
     let mut rng = Rng::new(args.stream_seed("c17"));
-    let cases = args.cases(80_000, 1_600_000);
+    let cases = args.cases(1_200_000, 16_000_000);
     for i in 0..cases {
         let case = gen_case(&mut rng);
         vcommon::mark_case(&format!("c17:{}:{}:{}", args.seed, args.shard, i));
